@@ -416,6 +416,17 @@ Model generate(sim::Rng& rng, const GenOptions& opt) {
     }
     m.cons.push_back(a);
   }
+  // a long run of plain linear range rows at the end (a size at which per-item bookkeeping is done in blocks)
+  for (int i = 0; i < opt.extra_ranges; ++i) {
+    AlgCon a;
+    a.tag = 0;
+    int j = i % nv, j2 = (i / nv + j + 1) % nv;
+    add_lin(a.lin, j, (double)(100000 + 10 * i + 1));
+    if (j2 != j) add_lin(a.lin, j2, -(double)(100000 + 10 * i + 3));
+    sort_lin(a.lin);
+    a.lb = -50000.0 - i; a.ub = 50000.0 + i;
+    m.cons.push_back(a);
+  }
 
   // ---- logical constraints
   for (int i = 0; i < nl; ++i) {
